@@ -108,13 +108,13 @@ def e2e_compile_docs(pid, proj):
     """parse + compile through the stream API, comparing pickles only"""
     def run(ctx):
         srcs = P.corpus_sources() + [s for s, _ in S.gen_sources(S.n_for(200, 3000), salt=pid + "/ev")]
-        reqs = [("events", [False, False, True, [["u.feature", s]]]) for s in srcs]
+        reqs = [("events", [False, False, True, False, [["u.feature", s]]]) for s in srcs]
 
         def pr(r, req=None):
             if "envelopes" not in r:
                 return {"outcome": outcome(r)}
             return [proj(e["pickle"]) for e in r["envelopes"] if "pickle" in e]
-        return differential("parse+compile", reqs, proj=pr, nontrivial=lambda q, r: q[1][3][0][1] if r.get("envelopes") else None,
+        return differential("parse+compile", reqs, proj=pr, nontrivial=lambda q, r: q[1][4][0][1] if r.get("envelopes") else None,
                             classify=lambda q, r: "pickles:%d" % min(5, len(r.get("envelopes", []))))
     run.__name__ = "e2e_compile_" + pid
     return run
@@ -177,7 +177,7 @@ def o_ids(ctx):
 
     def check_doc(it):
         src, want = it
-        ev = impl.events(False, True, True, [["u", src]])
+        ev = impl.events(False, True, True, False, [["u", src]])
         if "envelopes" not in ev:
             return {"what": "stream failed: %r" % (ev,)}
         ids = []
@@ -216,7 +216,7 @@ def o_ids(ctx):
         return None
 
     def check_hist(srcs):
-        ev = impl.events(False, True, True, [["u%d" % i, s] for i, s in enumerate(srcs)])
+        ev = impl.events(False, True, True, False, [["u%d" % i, s] for i, s in enumerate(srcs)])
         if "envelopes" not in ev:
             return {"what": "stream failed: %r" % (ev,)}
         ids = []
@@ -264,11 +264,11 @@ prop("C12", streams=[lambda ctx: P.regression_stream("C12"), P.unit_table_cells,
 
 
 def c12_ragged(ctx):
-    """every cell-count sequence of 1..4 rows x 1..4 cells, as data table and as examples table"""
+    """every cell-count sequence of 1..4 rows x 0..4 cells (a bare | is a row of no cells), as data table and as examples table"""
     srcs = []
     for n in range(1, 5):
-        for counts in itertools.product(range(1, 5), repeat=n):
-            rows = "".join("      |" + "|".join(" c%d " % j for j in range(k)) + "|\n" for k in counts)
+        for counts in itertools.product(range(0, 5), repeat=n):
+            rows = "".join(("      |" + "|".join(" c%d " % j for j in range(k)) + "|\n") if k else "      |\n" for k in counts)
             srcs.append("Feature: f\n  Scenario: s\n    Given a table\n" + rows + "    And more\n")
             srcs.append("Feature: f\n  Scenario Outline: o\n    Given <c0>\n    Examples:\n" + rows + "\n  @t\n  Scenario: next\n")
     return e2e("cell-count-sequences", srcs, P.p_cells, modes=(False, True), exhaustive=True, nontrivial=nt_rejected)
@@ -416,7 +416,7 @@ def o_c14(ctx):
                     return {"what": "error outside the document: %r" % (e["location"],)}
                 if not e["message"].startswith("(%d:%d): " % (e["location"]["line"], e["location"].get("column") or 0)):
                     return {"what": "message does not start with its own position: %r" % e["message"][:50]}
-            ev = impl.events(True, True, True, [["u", src]])
+            ev = impl.events(True, True, True, False, [["u", src]])
             kinds = [list(x)[0] for x in ev.get("envelopes", [])]
             if kinds != ["parseError"] * len(a["errors"]):
                 return {"what": "rejected source yields envelopes %r for %d errors" % (kinds[:6], len(a["errors"]))}
@@ -551,7 +551,7 @@ def o_interleave(ctx):
     alone = {s: impl.parse(False, "en", s) for s in small}
     r = rng("c15i")
 
-    def run_schedule(srcs, sched):
+    def run_schedule(srcs, sched, default_matcher=False):
         n = len(srcs)
         turn = {"who": None}
         cv = threading.Condition()
@@ -596,7 +596,8 @@ def o_interleave(ctx):
             p.me = i
             try:
                 try:
-                    doc = p.parse(impl.source_arg(srcs[i]), m)
+                    # with or without an explicit matcher (Parser.parse makes its own when none is given)
+                    doc = p.parse(impl.source_arg(srcs[i])) if default_matcher else p.parse(impl.source_arg(srcs[i]), m)
                     results[i] = {"ok": doc}
                 except impl.CompositeParserException as e:
                     results[i] = {"errors": [impl.err_json(x) for x in e.errors]}
@@ -624,17 +625,17 @@ def o_interleave(ctx):
         srcs = [r.choice(small) for _ in range(k)]
         total = sum(s.count("\n") + 2 for s in srcs)
         sched = [r.randrange(k) for _ in range(total + 4)]
-        items.append((srcs, sched))
+        items.append((srcs, sched, r.random() < 0.5))
 
     def check(it):
-        srcs, sched = it
-        res = run_schedule(srcs, sched)
+        srcs, sched, dm = it
+        res = run_schedule(srcs, sched, dm)
         for s, x in zip(srcs, res):
             want = {k: v for k, v in alone[s].items() if k in ("ok", "errors", "error")}
             if x is None or canon(x) != canon(want):
                 return {"what": "interleaved parse differs from the parse alone", "got": x, "alone": want}
         return None
-    return oracle("interleavings", items, check, describe=lambda it: [[s[:30] for s in it[0]], it[1][:12]])
+    return oracle("interleavings", items, check, describe=lambda it: [[s[:30] for s in it[0]], it[1][:12], it[2]])
 
 
 def static_scan(ctx):
@@ -683,6 +684,12 @@ def o_c16(ctx):
     srcs = P.corpus_sources() + [s for s, _ in S.gen_sources(S.n_for(150, 3000), salt="c16")] + S.mutated_sources(S.n_for(80, 1500), salt="c16/m")
     srcs = [s for s in srcs if "\r" not in s.replace("\r\n", "")]
     r = rng("c16o")
+    D = S.dialects()
+    for code in sorted(D)[::S.n_for(6, 1)]:
+        d = D[code]
+        giv = [x for x in d["given"] if x != "* "][0]
+        for hdr in ("# language: %s\n" % code, "#language:%s\n\n" % code, "# a comment\n# language: %s\n" % code):
+            srcs.append(hdr + "@t\n" + d["feature"][0] + ": f\n\n  " + d["scenario"][-1] + ": s\n    " + giv + "a\n      | x |\n")
 
     def res_of(src):
         x = impl.parse(False, "en", src)
@@ -698,7 +705,9 @@ def o_c16(ctx):
                         x["line"] += by
                     out[k] = x
                 elif k == "message" and isinstance(x, str):
-                    out[k] = x
+                    # the message starts with its own location, "(line:column): ..."
+                    import re
+                    out[k] = re.sub(r"^\((\d+):(\d+)\)", lambda m: "(%d:%s)" % (int(m.group(1)) + (by if int(m.group(1)) >= at else 0), m.group(2)), x)
                 else:
                     out[k] = shift_lines(x, at, by)
             return out
@@ -749,6 +758,11 @@ def o_c16(ctx):
                     if not base_src.endswith("\n\n") and alt != base_src:
                         return {"what": "presence of a final line break changes the AST", "variant": "final-newline"}
         lines = base_src.split("\n")
+        # a blank line at the very top (before a language header, too) changes only line numbers
+        for blank in ("", "  ", "\t"):
+            a = res_of(blank + "\n" + base_src)
+            if canon(a) != canon(shift_lines(base, 1)):
+                return {"what": "inserting a blank line at the top changes more than line numbers", "variant": blank + "\n" + base_src}
         if "ok" not in base or not base["ok"].get("feature"):
             return None
         # classify lines: the kind under which each line reached the builder
@@ -1039,12 +1053,12 @@ def c17_events(ctx):
     reqs = []
     for i, s in enumerate(pool):
         o = [(i >> k) & 1 == 1 for k in range(3)]
-        reqs.append(("events", o + [[["f%d.feature" % i, s]]]))
+        reqs.append(("events", o + [(i >> 3) & 1 == 1, [["f%d.feature" % i, s]]]))
     for _ in range(S.n_for(150, 2500)):
         o = [r.random() < 0.5 for _ in range(3)]
-        reqs.append(("events", o + [[["u%d" % j, r.choice(pool)] for j in range(r.randint(2, 4))]]))
+        reqs.append(("events", o + [r.random() < 0.3, [["u%d" % j, r.choice(pool)] for j in range(r.randint(2, 4))]]))
     return differential("events", reqs, nontrivial=lambda q, x: canon(q[1])[:300] if x.get("envelopes") else None,
-                        classify=lambda q, x: "opts:%d%d%d" % tuple(q[1][:3]))
+                        classify=lambda q, x: "opts:%d%d%d stop:%d" % tuple(q[1][:4]))
 
 
 def o_c17(ctx):
@@ -1055,7 +1069,7 @@ def o_c17(ctx):
 
     def check(it):
         src, (ps, pa, pp) = it
-        ev = impl.events(ps, pa, pp, [["the.uri", src]])
+        ev = impl.events(ps, pa, pp, False, [["the.uri", src]])
         if "envelopes" not in ev:
             return {"what": "enum raised %r" % (ev,)}
         envs = ev["envelopes"]
@@ -1079,7 +1093,7 @@ def o_c17(ctx):
     a = oracle("envelope-shape-and-order", items, check, describe=lambda it: [it[0][:200], it[1]])
 
     def check_seq(srcs):
-        whole = impl.events(True, True, True, [["u%d" % i, s] for i, s in enumerate(srcs)])
+        whole = impl.events(True, True, True, False, [["u%d" % i, s] for i, s in enumerate(srcs)])
         idc = 0
         acc = []
         for i, s in enumerate(srcs):
@@ -1540,7 +1554,7 @@ def o_c10_conjunctions(ctx):
             src = head + d["feature"][0] + ": f\n  " + (d["scenarioOutline"][0] if outline else d["scenario"][0]) + ": s\n    " + giv + "first\n    " + k + "second\n"
             if outline:
                 src += "    " + d["examples"][0] + ":\n      | a |\n      | 1 |\n"
-            ev = impl.events(False, False, True, [["u", src]])
+            ev = impl.events(False, False, True, False, [["u", src]])
             ps = [e["pickle"] for e in ev.get("envelopes", []) if "pickle" in e]
             if len(ps) != 1 or len(ps[0]["steps"]) != 2:
                 continue   # the keyword is shadowed by an earlier listed prefix: C05's business
@@ -1619,13 +1633,120 @@ def c01_compile(ctx):
     srcs = []
     for h in heads:
         srcs.append("Feature: f\n  Scenario Outline: uses <%s>\n    Given step <%s> here\n      | <%s> |\n    And doc\n      \"\"\"<%s>\n      <%s>\n      \"\"\"\n    Examples:\n      | %s | other |\n      | v1 | v2 |\n" % (h, h, h, h, h, h.replace("|", "\\|")))
-    reqs = [("events", [False, False, True, [["u", s]]]) for s in srcs]
+    reqs = [("events", [False, False, True, False, [["u", s]]]) for s in srcs]
 
     def proj(r, req=None):
         if "envelopes" not in r:
             return {"outcome": P.outcome(r), "type": r.get("foreign")}
         return {"kinds": [list(e)[0] for e in r["envelopes"]], "names": [e["pickle"]["name"] for e in r["envelopes"] if "pickle" in e]}
-    return differential("compile-with-metachar-headers", reqs, proj=proj, nontrivial=lambda q, x: q[1][3][0][1], classify=lambda q, x: P.outcome(x) if "envelopes" not in x else "ok", exhaustive=True)
+    return differential("compile-with-metachar-headers", reqs, proj=proj, nontrivial=lambda q, x: q[1][4][0][1], classify=lambda q, x: P.outcome(x) if "envelopes" not in x else "ok", exhaustive=True)
 
 
 P.PROPS["C01"]["streams"] = P.PROPS["C01"]["streams"][:2] + [c01_cap_boundary, c01_compile] + P.PROPS["C01"]["streams"][2:]
+
+
+def c01_stream_modes(ctx):
+    """the stream API turns any source into envelopes only -- also when its parser is told to stop at the first error
+    (events.parser.stop_at_first_error), where the parser raises the bare error types instead of the composite"""
+    bad = S.mutated_sources(S.n_for(120, 2000), salt="c01/stream") + [
+        "Feature: f\n  Scenario: s\n    oops\n", "# language: xx-nope\nFeature: f\n", "Feature: f\n  @a b\n  Scenario: s\n",
+        "Feature: f\n  Scenario: s\n    Given g\n      | a |\n      | b | c |\n", "Feature: f\n  Scenario: s\n    Given g\n      \"\"\"\n      open\n", "", "Feature: ok\n"]
+    reqs = [("events", [ps, True, True, stop, [["u%d" % i, s]]]) for i, s in enumerate(bad) for stop in (True, False) for ps in (False, True)]
+    r = rng("c01s")
+    for _ in range(S.n_for(60, 1000)):
+        reqs.append(("events", [False, True, True, True, [["m%d" % j, r.choice(bad)] for j in range(3)]]))
+
+    def proj(x, req=None):
+        if "envelopes" not in x:
+            return {"outcome": P.outcome(x), "type": x.get("foreign")}
+        return [(list(e)[0], e["parseError"]["source"]["location"] if "parseError" in e else None) for e in x["envelopes"]]
+    return differential("stream-stop-mode", reqs, proj=proj, nontrivial=lambda q, x: canon(q[1])[:300] if any("parseError" in e for e in x.get("envelopes", [])) else None,
+                        classify=lambda q, x: "stop:%d %s" % (q[1][3], "foreign" if "envelopes" not in x else "ok"))
+
+
+P.PROPS["C01"]["streams"].insert(4, c01_stream_modes)
+
+
+# ---------------------------------------------------------------- round-2 strengthening: histories on one parser + one matcher
+
+OPEN_DOCSTRING_DOCS = ["Feature: f\n  Scenario: s\n    Given g\n      \"\"\"\n      never closed\n",
+                       "Feature: f\n  Scenario: s\n    Given g\n        ```md\n        # never closed\n",
+                       "# c\nFeature: f\n  Background:\n    Given g\n   \"\"\"\n"]
+
+
+def c02_histories(ctx):
+    """acceptance does not depend on what the same Parser object parsed before: rejected documents again, in other orders"""
+    bad = ["Feature: f\n  Scenario: s\n    oops\n", "Feature: f\n  Scenario: s\n    oops\n    Given g\n", "Feature: f\nFeature: g\n",
+           "Scenario: s\n", "Feature: f\n  Examples:\n", "Feature: f\n  Scenario: s\n    Given g\n    | a |\n    \"\"\"\n    \"\"\"\n", "@t\n"]
+    good = ["Feature: f\n  Scenario: s\n    Given g\n", "", "Feature: f\n"]
+    r = rng("c02h")
+    reqs = [("parse_history", ["en", [[False, b], [False, b]]]) for b in bad]
+    reqs += [("parse_history", ["en", [[False, a], [False, b], [False, a], [False, b]]]) for a in bad for b in bad if a != b]
+    for _ in range(S.n_for(60, 1000)):
+        reqs.append(("parse_history", ["en", [[r.random() < 0.2, r.choice(bad + good + OPEN_DOCSTRING_DOCS)] for _ in range(r.randint(2, 6))]]))
+
+    def proj(res, req=None):
+        return [outcome(x) for x in res] if isinstance(res, list) else res
+    return differential("acceptance-on-a-reused-parser", reqs, proj=proj, nontrivial=lambda q, x: canon(q[1])[:300], classify=lambda q, x: "hist:%d" % len(q[1][1]), exhaustive=False)
+
+
+P.PROPS["C02"]["streams"].append(c02_histories)
+
+
+def c03_histories2(ctx):
+    """descriptions, names and step text are exact also when the previous document stopped inside an indented doc string"""
+    good = ["Feature: g\n        deep description\n      less deep\n  Scenario: t\n          indented description\n    Given h\n",
+            "Feature: h\n  Rule: r\n      rule description\n    Example: e\n        example description   \n      Given i\n        \"\"\"\n          body\n        \"\"\"\n  Scenario Outline: o\n     outline description\n    Examples:\n        examples description\n"]
+    reqs = [("parse_history", ["en", [[stop, b], [False, g]]]) for b in OPEN_DOCSTRING_DOCS for g in good for stop in (False, True)]
+    reqs += [("parse_history", ["en", [[False, g], [False, b], [False, g2]]]) for b in OPEN_DOCSTRING_DOCS for g in good for g2 in good]
+
+    def proj(res, req=None):
+        return [P.p_ast_text(x) for x in res] if isinstance(res, list) else res
+    return differential("after-open-doc-string", reqs, proj=proj, nontrivial=lambda q, x: canon(q[1])[:200], classify=lambda q, x: "hist", exhaustive=True)
+
+
+P.PROPS["C03"]["streams"].append(c03_histories2)
+
+
+def c13_histories(ctx):
+    """a doc string is closed only by its own delimiter -- and the end of the document: the next document starts outside any doc string"""
+    nxt = ["Feature: g\n  Scenario: t\n    Given h\n      ```\n      \"\"\"\n      ```\n    And i\n      \"\"\"\n      ```\n      \"\"\"\n",
+           "Feature: g\n  Scenario: t\n    Given h\n    \"\"\"json\n  x\n    \"\"\"\n", "Feature: plain\n  Scenario: t\n    Given no doc string\n    | a |\n",
+           "Feature: g\n  Scenario: t\n    Given h\n      ```\n      open again\n"]
+    reqs = [("parse_history", ["en", [[stop, b], [False, g], [False, g2]]]) for b in OPEN_DOCSTRING_DOCS for g in nxt for g2 in nxt[:2] for stop in (False, True)]
+
+    def proj(res, req=None):
+        return [P.p_docstrings(x) for x in res] if isinstance(res, list) else res
+    return differential("doc-string-state-between-documents", reqs, proj=proj, nontrivial=lambda q, x: canon(q[1])[:200], classify=lambda q, x: "hist", exhaustive=True)
+
+
+P.PROPS["C13"]["streams"].append(c13_histories)
+
+
+def c10_histories(ctx):
+    """keyword types (the compiler's input) after the matcher went through a document in another dialect"""
+    D = S.dialects()
+    r = rng("c10h")
+    codes = sorted(D)
+    reqs = []
+
+    def doc(code, header):
+        d = D[code]
+        ks = [r.choice([x for x in d[role] if x != "* "] or d[role]) for role in ("given", "and", "when", "but", "then", "and")]
+        return ("# language: %s\n" % code if header else "") + d["feature"][0] + ": f\n  " + d["scenario"][0] + ": s\n" + "".join("    %sx%d\n" % (k, i) for i, k in enumerate(ks))
+    for _ in range(S.n_for(100, 1500)):
+        dflt, other = r.choice(codes), r.choice(codes)
+        reqs.append(("parse_history", [dflt, [[False, doc(other, True)], [False, doc(dflt, False)], [False, doc(other, True)], [False, doc(dflt, False)]]]))
+
+    def proj(res, req=None):
+        if not isinstance(res, list):
+            return res
+        def types(doc):
+            out = []
+            walk(doc, lambda path, k, v: out.append(v) if k == "keywordType" else None)
+            return out
+        return [types(x["ok"]) if "ok" in x else outcome(x) for x in res]
+    return differential("keyword-types-after-header-history", reqs, proj=proj, nontrivial=lambda q, x: canon(q[1])[:200], classify=lambda q, x: "hist")
+
+
+P.PROPS["C10"]["streams"].append(c10_histories)
